@@ -37,8 +37,10 @@ ENUMS = [
 ]
 ASSUMPTIONS = [
     "CPython int / bytes / bytearray.append / struct / IntEnum semantics as modelled in Base/Bytes.v",
-    "the header object aliases the PduConfig it is given; the model keeps one PduConfig value inside the header "
-    "record (no second observer of the caller's object is modelled here; C11 covers constructors that copy it)",
+    "the header object aliases the PduConfig it is given (by design): the history model (Model/PduHeaderOps.v, hworld) "
+    "keeps the caller's object as a second observer that follows every write until h.pdu_conf is replaced; the three "
+    "UnsignedByteField objects are distinct objects in every generated history (one object used for two fields is not modelled)",
+    "UnsignedByteField.byte_len assignment after construction is not part of the histories (util.py / C20)",
     "ID / sequence values of widths 4 and 8 cannot be enumerated: boundaries + random on the implementation, "
     "all values in the theorems (be_encode lemmas)",
 ]
